@@ -122,11 +122,12 @@ class Run:
                   violations=len(real), known_findings=len(seen))
         if not self.cov["samples"]:
             self.cov["samples"].append("no sample recorded")
-        os.makedirs(os.path.join(VERIF, "evidence"), exist_ok=True)
-        tmp = os.path.join(VERIF, "evidence", "%s.json.tmp" % self.prop)
+        evd = os.environ.get("VERIF_EVIDENCE_DIR") or os.path.join(VERIF, "evidence")   # (mutant runs keep their evidence apart)
+        os.makedirs(evd, exist_ok=True)
+        tmp = os.path.join(evd, "%s.json.tmp" % self.prop)
         with open(tmp, "w") as f:
             json.dump(ev, f, indent=1, default=str)
-        os.replace(tmp, os.path.join(VERIF, "evidence", "%s.json" % self.prop))
+        os.replace(tmp, os.path.join(evd, "%s.json" % self.prop))
         dirs = [self._replay_dir(v, n) for n, v in enumerate(real[:5])]
         shutil.rmtree(self.work, ignore_errors=True)
         for pd in getattr(self, "_probe_dirs", []): shutil.rmtree(pd, ignore_errors=True)
